@@ -19,6 +19,9 @@ McCfgs ==
 \* configurations of the reset-loop liveness check: both directions, three header sizes, over-grant, both minimum chunk sizes
 LoopCfgs == {c \in AllCfgs : c.ma \in {1, 16} /\ c.dealloc /\ c.shrinks /\ ~c.skew /\ (c.extra = 0 \/ c.hs = 48)}
 
+PrepFailCfgs == {c \in AllCfgs : c.ma = 1 /\ c.mcs = 0 /\ c.hs = 32 /\ c.extra = 0 /\ ~c.skew /\ c.ga /\ c.dealloc /\ c.shrinks}
+PrepFailCtors == {[k |-> "new", n |-> 0, al |-> 1]}
+
 McCtors == {[k |-> "new", n |-> 0, al |-> 1], [k |-> "unallocated", n |-> 0, al |-> 1]}
 SimCtors == McCtors \cup {[k |-> "with_size", n |-> 200, al |-> 1], [k |-> "with_capacity", n |-> 100, al |-> 32],
                           [k |-> "with_capacity", n |-> 3, al |-> 1]}
@@ -32,9 +35,8 @@ Wraps == {"none", "wd", "ws", "both"}
 L(s, a) == [sz |-> s, al |-> a]
 Workloads == { <<L(24, 8)>>, <<L(100, 1), L(40, 32)>>, <<L(300, 8), L(17, 1), L(300, 64)>>, <<L(3, 1), L(5000, 8)>>,
                <<L(16, 16), L(16, 16), L(16, 16), L(100, 4)>>, <<L(600, 2), L(600, 2), L(8, 8)>> }
-\* element layouts of the exclusive-borrow collections (u8, [u8; 3], u16, u32, u64, [u64; 3], a 32-byte type aligned to 32)
-SimElems == {[sz |-> 1, al |-> 1], [sz |-> 3, al |-> 1], [sz |-> 2, al |-> 2], [sz |-> 4, al |-> 4], [sz |-> 8, al |-> 8],
-             [sz |-> 24, al |-> 8], [sz |-> 32, al |-> 32]}
+\* element layouts of the exclusive-borrow collections (u8, [u8; 3], u64, a 32-byte type aligned to 32)
+SimElems == {[sz |-> 1, al |-> 1], [sz |-> 3, al |-> 1], [sz |-> 8, al |-> 8], [sz |-> 32, al |-> 32]}
 McElems == {[sz |-> 3, al |-> 1], [sz |-> 8, al |-> 8]}
 
 \* Model-checking step relation: parameters that do not influence the successor state (zeroed; wrappers that an
@@ -60,8 +62,11 @@ Next ==
     \/ \E lvl \in ClaimLevels, op \in {"alloc", "grow", "dealloc", "shrink"}, id \in LiveIds \cup {0}, l \in Layouts : ClaimedOp(lvl, op, id, l)
     \/ \E n \in {1, 8, 16}, sc \in Bools : EnterAligned(n, sc)
     \/ ExitAligned("return")
+    \/ \E n \in {8, 16} : EnterBmws(n)
+    \/ \E n \in {1, 8, 16}, g \in {TRUE, cfg.ga} : WithSettings(n, g)
     \/ \E e \in McElems, rv \in Bools, c0 \in {0, 3}, f \in Bools : EnterPrep(e, rv, c0, f)
     \/ \E f \in Bools : PrepPush(f)
+    \/ \E f \in Bools : PrepReserve(20, f)
     \/ PrepCommit
     \/ PrepDrop("return")
     \/ \E id \in LiveIds, at \in {1, 8, 16} : Split(id, at)
@@ -70,6 +75,18 @@ Next ==
     \/ AllocValue("copy_u8", 3, FALSE)
 
 Spec == Init /\ [][Next]_vars
+
+\* focused step relation: exclusive-borrow collections under base allocator failure with several chunks
+PrepFailNext ==
+    \/ Alloc([sz |-> 40, al |-> 8], FALSE, FALSE)
+    \/ EnterFrame("scope")
+    \/ ExitScope("return")
+    \/ \E rv \in Bools : EnterPrep([sz |-> 8, al |-> 8], rv, 1, FALSE)
+    \/ \E f \in Bools : PrepPush(f)
+    \/ \E f \in Bools : PrepReserve(20, f)
+    \/ PrepCommit
+    \/ PrepDrop("return")
+PrepFailSpec == Init /\ [][PrepFailNext]_vars
 
 \* ---- random behaviours for the replayer (tlc -simulate): parameters are drawn with RandomElement so that every
 \* step has one successor per action kind (the simulator then picks the kind uniformly), and a behaviour is printed
@@ -103,10 +120,14 @@ SimStep ==
     \/ (ClaimLevels # {} /\ LiveIds # {} /\ ClaimedOp(R(ClaimLevels), R({"grow", "dealloc", "shrink"}), R(LiveIds), R(Layouts)))
     \/ EnterAligned(R({1, 2, 4, 8, 16}), R(Bools))
     \/ ExitAligned(R({"return", "unwind"}))
+    \/ EnterBmws(R({2, 4, 8, 16}))
+    \/ WithSettings(R({1, 2, 4, 8, 16}), TRUE) \/ WithSettings(R({1, 2, 4, 8, 16}), cfg.ga)
     \/ EnterPrep(R(SimElems), R(Bools), R({0, 0, 1, 5, 20}), FALSE)
     \/ (CanFail /\ EnterPrep(R(SimElems), R(Bools), R({5, 20, 200}), TRUE))
     \/ PrepPush(FALSE) \/ (InPrep /\ PrepPush(FALSE)) \/ (InPrep /\ PrepPush(FALSE))
     \/ (CanFail /\ PrepPush(TRUE))
+    \/ PrepReserve(R({1, 3, 10, 40, 300}), FALSE)
+    \/ (CanFail /\ PrepReserve(R({10, 40, 300, 2000}), TRUE))
     \/ PrepCommit
     \/ PrepDrop(R({"return", "unwind"}))
     \/ (\E tw \in {R(TwFams)} : AllocTryWith(tw, R(Bools), R(Bools), FALSE, FALSE))
@@ -125,7 +146,7 @@ SimStep ==
 
 Finish ==
     /\ nops >= 0 /\ (nops >= MaxOps \/ dropped)
-    /\ PrintT(<<"REPLAY", ToJson([cfg |-> cfg, steps |-> hist])>>)
+    /\ PrintT(<<"REPLAY", ToJson([cfg |-> hist[1].cfg0, steps |-> hist])>>)
     /\ nops' = 0 - 1
     /\ UNCHANGED <<cfg, base, chunks, cur, ma, frames, blocks, cps, nextId, order, parts, last, fails, dropped, hist>>
 
@@ -135,13 +156,14 @@ SimSpec == Init /\ [][SimNext]_vars
 Bound == nops < MaxOps
 
 \* emit complete behaviours for the replayer (always true; prints when the bound is reached)
-EmitAtBound == (nops = MaxOps \/ dropped) => PrintT(<<"REPLAY", ToJson([cfg |-> cfg, steps |-> hist])>>)
+EmitAtBound == (nops = MaxOps \/ dropped) => PrintT(<<"REPLAY", ToJson([cfg |-> hist[1].cfg0, steps |-> hist])>>)
 
 \* the settings tuples compiled into the default (quick) replay binary -- keep in sync with harness/replay/src/main.rs
 QuickCombo(c) ==
-    <<c.up, c.ga, c.dealloc, c.shrinks, c.mcs>> \in
-        { <<TRUE, TRUE, TRUE, TRUE, 0>>, <<FALSE, TRUE, TRUE, TRUE, 0>>, <<TRUE, FALSE, TRUE, TRUE, 0>>,
-          <<FALSE, FALSE, TRUE, TRUE, 512>>, <<TRUE, TRUE, FALSE, TRUE, 512>>, <<FALSE, TRUE, FALSE, FALSE, 0>>,
-          <<TRUE, TRUE, TRUE, FALSE, 0>>, <<FALSE, FALSE, TRUE, FALSE, 512>> }
+    <<c.up, c.ga, c.dealloc, c.shrinks, c.mcs, c.hs>> \in
+        { <<TRUE, TRUE, TRUE, TRUE, 0, 32>>, <<FALSE, TRUE, TRUE, TRUE, 0, 48>>, <<TRUE, FALSE, TRUE, TRUE, 0, 128>>,
+          <<FALSE, FALSE, TRUE, TRUE, 512, 32>>, <<TRUE, TRUE, FALSE, TRUE, 512, 48>>, <<FALSE, TRUE, FALSE, FALSE, 0, 128>>,
+          <<TRUE, TRUE, TRUE, FALSE, 0, 32>>, <<FALSE, FALSE, TRUE, FALSE, 512, 48>>, <<TRUE, FALSE, TRUE, TRUE, 0, 48>>,
+          <<FALSE, FALSE, TRUE, TRUE, 512, 128>>, <<TRUE, TRUE, TRUE, TRUE, 512, 128>>, <<FALSE, TRUE, TRUE, FALSE, 0, 32>> }
 QuickCfgs == {c \in AllCfgs : QuickCombo(c)}
 =============================================================================
